@@ -26,4 +26,7 @@ def build(src, tier):
         ts += [Q.t_post(host, 'fifo', ('C14',)), Q.t_post(host, 'lifo', ('C14',)), Q.t_next_rtc(host),
                Q.t_complete_circuit(host)]
     ts.append(t_chart_init('HsmWithQueues'))
-    return [(w, ts)]
+    # starting the chart leaves the events posted before start_at where they are
+    from . import instr_targets as I
+    return [(w, ts), (I.instr_world(src, tier), [I.t_start_body('HsmWithQueues')]),
+            (I.instr_world(src, tier), [I.t_start_body('ActiveObject')])]
